@@ -26,6 +26,8 @@ Arguments N.min : simpl never.
 Section Chain.
 Variable c : tcfg.
 Variable G : io -> reply -> Prop.
+Variable SA : ans -> Prop.   (* answers the scripts may contain *)
+Variable FD : Prop.          (* "dependency readings may be forced" *)
 Variable BP : blk -> Prop.
 Variable HP : N -> N -> Prop.
 Variable HD : N -> Prop.
@@ -40,6 +42,7 @@ Hypothesis G_bp : forall ps rs, G (RGet ps) (RSegs rs) -> Forall BP (concat (map
 Hypothesis G_hp : forall n h, G (RHash n) (RHashV h) -> HP n h.
 Hypothesis G_hd : forall k n h, G (RLatest k) (RHead n h) -> HD n.
 Hypothesis Hself : ~ In (t_ig c) (t_deps c).
+Hypothesis H_fd : forall x, SA (AReply (RDep x)) -> FD.
 
 Definition W (g : list batch) : Prop := wf_ghost c g /\ Forall BP (concat g).
 
@@ -62,9 +65,9 @@ Inductive unw : list batch -> Prop :=
 (* the dependency position as the step reads it: the committed database at its
    beginning (its own uncommitted writes never touch other pairs) *)
 Definition dstarted : Prop :=
-  t_deps c = [] \/ exists dn dh, dep_query (t_src c) (t_deps c) (d_curs d0) = Some (dn, dh, ndeps c).
+  FD \/ t_deps c = [] \/ exists dn dh, dep_query (t_src c) (t_deps c) (d_curs d0) = Some (dn, dh, ndeps c).
 Definition dep_bound (n : N) : Prop :=
-  t_deps c = [] \/ exists dn dh, dep_query (t_src c) (t_deps c) (d_curs d0) = Some (dn, dh, ndeps c) /\ n <= dn.
+  FD \/ t_deps c = [] \/ exists dn dh, dep_query (t_src c) (t_deps c) (d_curs d0) = Some (dn, dh, ndeps c) /\ n <= dn.
 
 Definition newb (p : list batch) (bs : list blk) : Prop :=
   bs <> [] /\ N.of_nat (length bs) <= t_batch c
@@ -82,7 +85,7 @@ Definition Qstep : post :=
   fun o d cs => cs = None /\ (o = OConverged -> Adv d) /\ (NDA -> o <> OConverged -> Idle d)
                 /\ (o <> OConverged -> o <> OFailed -> d = d0) /\ (o = ODone -> DoneOk).
 
-Notation S p d cs := (safe (t_uniq c) Inv G p d cs Qstep) (only parsing).
+Notation S p d cs := (safe (t_uniq c) Inv G SA p d cs Qstep) (only parsing).
 
 Lemma Inv_TaskInv : forall d, Inv d -> TaskInv c d.
 Proof.
@@ -118,8 +121,8 @@ Qed.
 Lemma newb_started : forall p bs, newb p bs -> dstarted.
 Proof.
   intros p bs (Hne & _ & _ & Hd). destruct bs as [|x bs]; [congruence|].
-  inversion Hd as [|? ? Hx _]; subst. destruct Hx as [E|(dn & dh & E & _)]; [left; exact E|].
-  right. exists dn, dh. exact E.
+  inversion Hd as [|? ? Hx _]; subst. destruct Hx as [F|[E|(dn & dh & E & _)]]; [left; exact F|right; left; exact E|].
+  right. right. exists dn, dh. exact E.
 Qed.
 
 (* ---------- second transaction ---------- *)
@@ -147,7 +150,7 @@ Qed.
 Lemma S_commit2 : forall cs, ready cs -> S (Op Commit tx2_done) d1 cs.
 Proof.
   intros cs (ws2 & -> & Hown & Happ). apply safe_op; [exact Hinv|].
-  intros a Ha Hg.
+  intros a Ha _ Hg.
   assert (Hadv : Adv (apply_ws ws2 d1)).
   { exists p, bs. split; [exact Hunw|]. split; [exact Hnew|]. split; [exact Hw|].
     rewrite pv_apply_ws_own by exact Hown. exact Happ. }
@@ -203,7 +206,7 @@ Qed.
 
 Lemma S_tx2 : S (Op Begin (tx2_begin c bs tn th delta)) d1 None.
 Proof.
-  apply safe_op; [exact Hinv|]. intros a Ha _.
+  apply safe_op; [exact Hinv|]. intros a Ha _ _.
   destruct (step_op_begin (t_uniq c) d1 a Ha) as [E|(k & E)]; rewrite E; cbn [fst snd].
   - split; [exact Hinv|]. apply S_begin2. right. split; reflexivity.
   - split; [exact Hinv|]. apply S_begin2. left. split; reflexivity.
@@ -242,7 +245,7 @@ Lemma S_insert_tx : forall ws p bs tn th delta,
   S (insert_tx c bs tn th delta) d0 (Some ws).
 Proof.
   intros ws p bs tn th delta (Hown & Happ & Hwp & Hunw) Hnew Hw.
-  unfold insert_tx. apply safe_op; [exact Hinv|]. intros a Ha _.
+  unfold insert_tx. apply safe_op; [exact Hinv|]. intros a Ha _ _.
   assert (Hpv1 : pv c (apply_ws ws d0) = render c p).
   { rewrite pv_apply_ws_own by exact Hown. exact Happ. }
   assert (Hidle1 : Idle (apply_ws ws d0)) by (exists p; split; [|split]; assumption).
@@ -414,7 +417,8 @@ Qed.
 
 Lemma dep_bound_le : forall a b, a <= b -> dep_bound b -> dep_bound a.
 Proof.
-  intros a b H [E|(dn & dh & E & L)]; [left; exact E|]. right. exists dn, dh. split; [exact E|lia].
+  intros a b H [F|[E|(dn & dh & E & L)]]; [left; exact F|right; left; exact E|].
+  right. right. exists dn, dh. split; [exact E|lia].
 Qed.
 
 (* ---------- after Task.load ---------- *)
@@ -477,33 +481,33 @@ Proof.
   - apply (dep_bound_le _ tn); assumption.
 Qed.
 
-(* the dependency position is read inside the first transaction *)
-Lemma S_after_dep : forall ws p again ln lh gn gh,
+(* the dependency position is read inside the first transaction: it is what
+   the committed database says, or -- when scripts may force it -- anything *)
+Lemma S_after_dep : forall ws p again ln lh gn gh o,
   T1 ws p -> pos_of p ln lh -> again_ok again -> gn < nmax -> t_deps c <> [] ->
-  S (after_dep repaired c again ln lh gn gh
-       (RDep (dep_query (t_src c) (t_deps c) (d_curs d0)))) d0 (Some ws).
+  FD \/ o = dep_query (t_src c) (t_deps c) (d_curs d0) ->
+  S (after_dep repaired c again ln lh gn gh (RDep o)) d0 (Some ws).
 Proof.
-  intros ws p again ln lh gn gh HT Hpos Hag Hmax Hdeps.
+  intros ws p again ln lh gn gh o HT Hpos Hag Hmax Hdeps Ho.
   unfold after_dep.
-  destruct (dep_query (t_src c) (t_deps c) (d_curs d0)) as [[[dn dh] cnt]|] eqn:Eq;
-    [|apply S_rb1; discriminate].
+  destruct o as [[[dn dh] cnt]|]; [|apply S_rb1; discriminate].
   cbn [v_depall repaired andb].
   destruct (N.ltb_spec cnt (ndeps c)); [apply S_rb1; discriminate|].
-  assert (Hcnt : cnt = ndeps c).
-  { unfold dep_query in Eq.
-    destruct (fold_left lower _ None) as [[n' h']|]; [|discriminate]. inversion Eq; subst.
-    assert (L : N.of_nat (length (dep_latest (t_src c) (distinct_deps (t_deps c)) (d_curs d0))) <= ndeps c).
-    { unfold ndeps. generalize (distinct_deps (t_deps c)). intros l.
-      induction l as [|x l IH]; cbn [dep_latest length]; [lia|].
-      destruct (newest (t_src c) x (d_curs d0)); cbn [length]; lia. }
-    lia. }
-  subst cnt.
+  assert (Hb : forall n, n <= dn -> dep_bound n).
+  { intros n Hn. destruct Ho as [F|Eq]; [left; exact F|]. right. right.
+    assert (Hcnt : cnt = ndeps c).
+    { symmetry in Eq. unfold dep_query in Eq.
+      destruct (fold_left lower _ None) as [[n' h']|]; [|discriminate]. inversion Eq; subst.
+      assert (L : N.of_nat (length (dep_latest (t_src c) (distinct_deps (t_deps c)) (d_curs d0))) <= ndeps c).
+      { unfold ndeps. generalize (distinct_deps (t_deps c)). intros l.
+        induction l as [|x l IH]; cbn [dep_latest length]; [lia|].
+        destruct (newest (t_src c) x (d_curs d0)); cbn [length]; lia. }
+      lia. }
+    subst cnt. exists dn, dh. split; [symmetry; exact Eq|exact Hn]. }
   destruct (N.eqb_spec dn 0); [apply S_rb1; discriminate|].
   destruct (N.ltb_spec dn gn).
-  - apply (S_after_target ws p); try assumption; [lia|].
-    right. exists dn, dh. split; [exact Eq|lia].
-  - apply (S_after_target ws p); try assumption.
-    right. exists dn, dh. split; [exact Eq|lia].
+  - apply (S_after_target ws p); try assumption; [lia|]. apply Hb. lia.
+  - apply (S_after_target ws p); try assumption. apply Hb. lia.
 Qed.
 
 Lemma S_after_head : forall ws p again ln lh r,
@@ -515,15 +519,15 @@ Proof.
   unfold after_head. destruct r as [| | k | | | | | gn gh | |]; try apply S_bad1.
   pose proof (G_ok _ _ Hg) as Hn. cbn in Hn.
   destruct (t_deps c) as [|dep deps] eqn:Ed.
-  - apply (S_after_target ws p); try assumption. left. exact Ed.
-  - apply safe_op_tx; [reflexivity|exact Hinv| |].
+  - apply (S_after_target ws p); try assumption. right. left. exact Ed.
+  - assert (Hs : ~ In (t_ig c) (t_deps c)) by (rewrite Ed; exact Hself).
+    assert (Hd : t_deps c <> []) by (rewrite Ed; discriminate).
+    rewrite <- Ed. apply safe_op_dep; [exact Hinv| | |].
     + intros r cs' Hf _. unfold after_dep. destruct r; try discriminate. apply S_rb1; discriminate.
-    + intros cs' r E. cbn [db_step] in E. injection E as Ecs Er. subst cs' r.
-      destruct HT as (Hown & HT').
-      assert (Hs : ~ In (t_ig c) (t_deps c)) by (rewrite Ed; exact Hself).
-      rewrite <- Ed. rewrite (dep_query_own c ws d0 Hown Hs).
-      apply (S_after_dep ws p); try assumption; [split; assumption|].
-      rewrite Ed. discriminate.
+    + cbn [db_step snd vis]. destruct HT as (Hown & HT').
+      rewrite (dep_query_own c ws d0 Hown Hs).
+      apply (S_after_dep ws p); try assumption; [split; assumption|right; reflexivity].
+    + intros x Hx. apply (S_after_dep ws p); try assumption. left. apply (H_fd x Hx).
 Qed.
 
 Lemma S_with_local : forall ws p again ln lh,
@@ -602,7 +606,7 @@ Proof.
   intros Ho Hpv Hw.
   assert (Hidle : Idle d0) by (exists g0; split; [constructor|split; assumption]).
   assert (Hinv : Inv d0) by (split; [exact Ho|split; [left; exact Hidle|left; reflexivity]]).
-  unfold converge, converge_v. apply safe_op; [exact Hinv|]. intros a Ha _.
+  unfold converge, converge_v. apply safe_op; [exact Hinv|]. intros a Ha _ _.
   destruct (step_op_begin (t_uniq c) d0 a Ha) as [E|(k & E)]; rewrite E; cbn [fst snd].
   - split; [exact Hinv|]. unfold begun. cbn [is_fail].
     apply (S_reorg_loop Hinv Hidle 1001 [] g0).
